@@ -328,7 +328,13 @@ pub fn gen(focus: &str, seed: u64, count: u64) -> Vec<String> {
                 let group = *g.pick(&GROUPS);
                 let shape = lj_shape(&mut g);
                 let stream = g.below(3);
-                format!("kind=lj group={} shape={} {}", group, shape, state_params(&mut g, group, 1.5, stream))
+                // molecules of unlike particles: some cut, some not, different depths (library / file states)
+                let over = if g.chance(0.2) {
+                    let c = |g: &mut Sm| -> String { match g.below(3) { 0 => "-".to_string(), 1 => "3.5".to_string(), _ => fmt_f((g.range(1.5, 6.) * 10.).round() / 10.) } };
+                    let e = |g: &mut Sm| -> String { fmt_f(*g.pick(&[1., 1., 0.5, 2.])) };
+                    format!(" cuts={}:{}:{} epss={}:{}:{}", c(&mut g), c(&mut g), c(&mut g), e(&mut g), e(&mut g), e(&mut g))
+                } else { String::new() };
+                format!("kind=lj group={} shape={} {}{}", group, shape, state_params(&mut g, group, 1.5, stream), over)
             }
             "C02" => {
                 let group = *g.pick(&GROUPS);
